@@ -116,7 +116,8 @@ pub fn corpus() -> Vec<(&'static str, Module, u32)> {
         ("corpus.huge_upvalues", modgen::huge_upvalues_module(&mut rng), 64),
         ("corpus.huge_locals", modgen::huge_locals_module(&mut rng), 64),
         ("corpus.globals17", main_only((0..17).map(|i| Card::set_global_var(format!("g{}", i), Card::scalar_int(i))).collect()), 64),
-        // O-C10-1: "brljcd" and "uqabx" have the same Handle::from_str hash -> one variable id for two names
+        // O-C10-1: "brljcd" and "uqabx" have the same Handle::from_str hash -> were one variable id for two names;
+        // since ce07816 the second name is rejected with BadVariableName at its card
         ("corpus.global_name_collision", main_only(vec![
             Card::set_global_var("brljcd", Card::scalar_int(1)),
             Card::set_global_var("uqabx", Card::scalar_int(2)),
@@ -206,7 +207,7 @@ fn show(name: &str, m: &Module) -> Option<cao_lang::prelude::CaoCompiledProgram>
 pub fn witness() {
     std::panic::set_hook(Box::new(|_| {}));
     // observation O-C10-1: two global variable names with the same Handle::from_str hash (FNV-1a-32
-    // of "brljcd" and of "uqabx" is 2133916524) are one variable
+    // of "brljcd" and of "uqabx" is 2133916524) were one variable; since ce07816: Err(BadVariableName)
     let m = main_only(vec![
         Card::set_global_var("brljcd", Card::scalar_int(1)),
         Card::set_global_var("uqabx", Card::scalar_int(2)),
